@@ -129,17 +129,9 @@ func (idx *IndexWriter) WriteToBoltDatabase(db *bbolt.DB) error {
 		return err
 	}
 
-	if err := bucket.Put(keySchema, buf.Bytes()); err != nil {
-		return err
-	}
-
 	var rowIDbuf [4]byte
 
 	binary.BigEndian.PutUint32(rowIDbuf[:], idx.nextRowID)
-
-	if err := bucket.Put(keyNextRowID, rowIDbuf[:]); err != nil {
-		return err
-	}
 
 	i := 0
 
@@ -171,6 +163,17 @@ func (idx *IndexWriter) WriteToBoltDatabase(db *bbolt.DB) error {
 
 			bucket = tx.Bucket([]byte("data"))
 		}
+	}
+
+	// the schema and the row counter are written in the last transaction only: OpenIndex
+	// requires both, so that a file whose creation was interrupted between two commits is
+	// rejected instead of being opened as an index that misses bitmaps.
+	if err := bucket.Put(keySchema, buf.Bytes()); err != nil {
+		return err
+	}
+
+	if err := bucket.Put(keyNextRowID, rowIDbuf[:]); err != nil {
+		return err
 	}
 
 	if err := tx.Commit(); err != nil {
